@@ -8,7 +8,7 @@ import (
 	m "verif/harness/model"
 )
 
-var wideNames = []string{"a", "b", "c", "k", "", "é", "long-key", "attr7", "z"}
+var wideNames = []string{"a", "b", "c", "k", "", "é", "long-key", "attr7", "z", `q"\\`, "<&>"}
 
 // wideType draws a type the way gen.Type does, but with tuples of up to 6
 // elements and objects of up to 6 attributes, each attribute optional with
